@@ -314,6 +314,283 @@ fn prologue(f: &syn::ImplItemFn, model: &str, st: &str) -> R<String> {
     Ok(format!("  let s := if {cond} then {model}.updateRemainder x else x.{st}\n  {model}.rounds {k} s\n"))
 }
 
+
+// ---------------------------------------------------------------------------------------------------------------
+// HashPacket (src/internal.rs): `buf: [u8; 32]` is the list `p.buf`, `buf_index` the number `p.idx`, a `&[u8]` parameter
+// a list.  Slice operations are mapped by their std meaning:
+//   self.buf.get_mut(i..).unwrap_or_default()   a view at offset i of length `buf.length - i` (empty when i is past the end)
+//   view[..n].copy_from_slice(src) / view.copy_from_slice(src)
+//                                               buf := buf.take off ++ src ++ buf.drop (off + n)      (n = the view's length if whole)
+//   data.split_at(n)                            (data.take n, data.drop n)
+//   self.buf.get(..i).unwrap_or(&self.buf)      if i ≤ buf.length then buf.take i else buf
+struct Pk {
+    buf: String,
+    idx: String,
+    views: Vec<(String, String, String)>, // name -> (offset, length)
+    lists: Vec<(String, String)>,         // name -> list term
+    packet: u64,
+}
+
+impl Pk {
+    fn is_self_field(e: &Expr, name: &str) -> bool {
+        let e = match e {
+            Expr::Reference(r) => &*r.expr,
+            o => o,
+        };
+        if let Expr::Field(f) = e {
+            if let (Expr::Path(p), syn::Member::Named(id)) = (&*f.base, &f.member) {
+                return p.path.is_ident("self") && id == name;
+            }
+        }
+        false
+    }
+    fn nat(&self, e: &Expr) -> R<String> {
+        match e {
+            Expr::Paren(p) => self.nat(&p.expr),
+            Expr::Lit(l) => match &l.lit {
+                syn::Lit::Int(i) => Ok(i.base10_digits().to_string()),
+                _ => Err("literal".into()),
+            },
+            Expr::Path(p) if p.path.is_ident("PACKET_SIZE") => Ok(self.packet.to_string()),
+            _ if Self::is_self_field(e, "buf_index") => Ok(self.idx.clone()),
+            Expr::MethodCall(m) if m.method == "len" && m.args.is_empty() => {
+                if Self::is_self_field(&m.receiver, "buf") {
+                    return Ok(format!("{}.length", self.buf));
+                }
+                if let Expr::Path(p) = &*m.receiver {
+                    let id = p.path.get_ident().ok_or("len receiver")?.to_string();
+                    if let Some(v) = self.views.iter().rev().find(|v| v.0 == id) {
+                        return Ok(v.2.clone());
+                    }
+                    if let Some(l) = self.lists.iter().rev().find(|l| l.0 == id) {
+                        return Ok(format!("{}.length", l.1));
+                    }
+                }
+                Err("len of an unknown value".into())
+            }
+            _ => Err(format!("number: {}", quote::quote!(#e).to_string().chars().take(50).collect::<String>())),
+        }
+    }
+    fn list(&self, e: &Expr) -> R<String> {
+        match e {
+            Expr::Reference(r) => self.list(&r.expr),
+            Expr::Paren(p) => self.list(&p.expr),
+            Expr::Path(p) => {
+                let id = p.path.get_ident().ok_or("list path")?.to_string();
+                self.lists.iter().rev().find(|l| l.0 == id).map(|l| l.1.clone()).ok_or_else(|| format!("unknown slice {id}"))
+            }
+            _ => Err(format!("slice: {}", quote::quote!(#e).to_string().chars().take(50).collect::<String>())),
+        }
+    }
+    fn cond(&self, e: &Expr) -> R<String> {
+        match e {
+            Expr::Paren(p) => self.cond(&p.expr),
+            Expr::Unary(u) if matches!(u.op, syn::UnOp::Not(_)) => Ok(format!("¬ ({})", self.cond(&u.expr)?)),
+            Expr::Binary(b) => {
+                let (l, r) = (self.nat(&b.left)?, self.nat(&b.right)?);
+                match b.op {
+                    syn::BinOp::Gt(_) => Ok(format!("{l} > {r}")),
+                    syn::BinOp::Lt(_) => Ok(format!("{l} < {r}")),
+                    syn::BinOp::Ge(_) => Ok(format!("{l} ≥ {r}")),
+                    syn::BinOp::Le(_) => Ok(format!("{l} ≤ {r}")),
+                    syn::BinOp::Eq(_) => Ok(format!("({l} == {r}) = true")),
+                    _ => Err("comparison".into()),
+                }
+            }
+            Expr::MethodCall(m) if m.method == "is_empty" && m.args.is_empty() => Ok(format!("({}).isEmpty = true", self.list(&m.receiver)?)),
+            _ => Err("condition".into()),
+        }
+    }
+    /// `X.copy_from_slice(src)` where X is a view, `view[..n]` or `self.buf[..n]`
+    fn copy(&mut self, m: &syn::ExprMethodCall) -> R<()> {
+        let src = self.list(m.args.first().ok_or("copy arg")?)?;
+        let (off, n) = match &*m.receiver {
+            Expr::Path(p) => {
+                let id = p.path.get_ident().ok_or("copy receiver")?.to_string();
+                let v = self.views.iter().rev().find(|v| v.0 == id).ok_or("copy into an unknown view")?;
+                (v.1.clone(), v.2.clone())
+            }
+            Expr::Index(ix) => {
+                let Expr::Range(r) = &*ix.index else { return Err("copy receiver index".into()) };
+                if r.start.is_some() || !matches!(r.limits, syn::RangeLimits::HalfOpen(_)) {
+                    return Err("copy receiver range".into());
+                }
+                let n = self.nat(r.end.as_deref().ok_or("copy receiver range")?)?;
+                if Self::is_self_field(&ix.expr, "buf") {
+                    ("0".to_string(), n)
+                } else if let Expr::Path(p) = &*ix.expr {
+                    let id = p.path.get_ident().ok_or("copy receiver")?.to_string();
+                    let v = self.views.iter().rev().find(|v| v.0 == id).ok_or("copy into an unknown view")?;
+                    (v.1.clone(), n)
+                } else {
+                    return Err("copy receiver".into());
+                }
+            }
+            _ => return Err("copy receiver".into()),
+        };
+        let b = self.buf.clone();
+        self.buf = format!("({b}.take {off} ++ {src} ++ {b}.drop ({off} + {n}))");
+        Ok(())
+    }
+    /// statements of a block; returns the block's value expression (None / Some(x)) if it has one
+    fn block(&mut self, stmts: &[Stmt]) -> R<Option<String>> {
+        for (i, st) in stmts.iter().enumerate() {
+            let last = i + 1 == stmts.len();
+            match st {
+                Stmt::Macro(m) if m.mac.path.segments.last().map(|s| s.ident.to_string().starts_with("debug_assert")).unwrap_or(false) => {}
+                Stmt::Local(l) => {
+                    let init = l.init.as_ref().ok_or("let without init")?;
+                    match (&l.pat, &*init.expr) {
+                        // let dest = self.buf.get_mut(self.buf_index..).unwrap_or_default();
+                        (Pat::Ident(pi), Expr::MethodCall(u)) if u.method == "unwrap_or_default" => {
+                            let Expr::MethodCall(g) = &*u.receiver else { return Err("view".into()) };
+                            if g.method != "get_mut" || !Self::is_self_field(&g.receiver, "buf") || g.args.len() != 1 {
+                                return Err("view".into());
+                            }
+                            let Expr::Range(r) = &g.args[0] else { return Err("view range".into()) };
+                            if r.end.is_some() {
+                                return Err("view range".into());
+                            }
+                            let off = self.nat(r.start.as_deref().ok_or("view range")?)?;
+                            let len = format!("({}.length - {off})", self.buf);
+                            self.views.push((pi.ident.to_string(), off, len));
+                        }
+                        // let (head, tail) = data.split_at(n);
+                        (Pat::Tuple(t), Expr::MethodCall(sp)) if sp.method == "split_at" && sp.args.len() == 1 && t.elems.len() == 2 => {
+                            let src = self.list(&sp.receiver)?;
+                            let n = self.nat(&sp.args[0])?;
+                            let (Pat::Ident(a), Pat::Ident(b)) = (&t.elems[0], &t.elems[1]) else { return Err("split pattern".into()) };
+                            self.lists.push((a.ident.to_string(), format!("({src}.take {n})")));
+                            self.lists.push((b.ident.to_string(), format!("({src}.drop {n})")));
+                        }
+                        _ => return Err("let form".into()),
+                    }
+                }
+                Stmt::Expr(Expr::MethodCall(m), Some(_)) if m.method == "copy_from_slice" || m.method == "clone_from_slice" => self.copy(m)?,
+                Stmt::Expr(Expr::Assign(a), Some(_)) if Self::is_self_field(&a.left, "buf_index") => {
+                    self.idx = self.nat(&a.right)?;
+                }
+                Stmt::Expr(Expr::Binary(b), Some(_)) if matches!(b.op, syn::BinOp::AddAssign(_)) && Self::is_self_field(&b.left, "buf_index") => {
+                    self.idx = format!("({} + {})", self.idx, self.nat(&b.right)?);
+                }
+                Stmt::Expr(Expr::Path(p), None) if last && p.path.is_ident("None") => return Ok(Some("none".into())),
+                Stmt::Expr(Expr::Call(c), None) if last => {
+                    if let Expr::Path(p) = &*c.func {
+                        if p.path.is_ident("Some") && c.args.len() == 1 {
+                            return Ok(Some(format!("some {}", self.list(&c.args[0])?)));
+                        }
+                    }
+                    return Err("result".into());
+                }
+                _ => return Err(format!("statement: {}", quote::quote!(#st).to_string().chars().take(60).collect::<String>())),
+            }
+        }
+        Ok(None)
+    }
+}
+
+fn packet_translations(src_dir: &str, ps: u64) -> Vec<(String, R<(String, String)>)> {
+    let path = format!("{src_dir}/internal.rs");
+    let mut res = Vec::new();
+    let fresh = |ps: u64| Pk { buf: "p.buf".into(), idx: "p.idx".into(), views: Vec::new(), lists: vec![("data".into(), "data".into())], packet: ps };
+    // fill: optional prelude statements, then `if c { .. } else { .. }` whose branches end in None / Some(tail)
+    res.push(("HashPacket::fill".to_string(), (|| {
+        let f = find_fn(&path, "HashPacket", "fill")?;
+        let mut pk = fresh(ps);
+        let n = f.block.stmts.len();
+        if n == 0 {
+            return Err("empty".into());
+        }
+        pk.block(&f.block.stmts[..n - 1])?;
+        let Stmt::Expr(Expr::If(ife), None) = &f.block.stmts[n - 1] else { return Err("last statement is not the if".into()) };
+        let c = pk.cond(&ife.cond)?;
+        let mut a = Pk { buf: pk.buf.clone(), idx: pk.idx.clone(), views: pk.views.clone(), lists: pk.lists.clone(), packet: ps };
+        let va = a.block(&ife.then_branch.stmts)?.ok_or("then branch has no value")?;
+        let Some((_, els)) = &ife.else_branch else { return Err("no else".into()) };
+        let Expr::Block(eb) = &**els else { return Err("else form".into()) };
+        let mut b = Pk { buf: pk.buf.clone(), idx: pk.idx.clone(), views: pk.views.clone(), lists: pk.lists.clone(), packet: ps };
+        let vb = b.block(&eb.block.stmts)?.ok_or("else branch has no value")?;
+        let d = format!("def fill (p : Pkt) (data : List (BitVec 8)) : Pkt × Option (List (BitVec 8)) :=\n  if {c} then (⟨{}, {}⟩, {va})\n  else (⟨{}, {}⟩, {vb})\n", a.buf, a.idx, b.buf, b.idx);
+        let t = "theorem fill_eq (p : Pkt) (data : List (BitVec 8)) : fill p data = Pkt.fill p data := rfl\n".to_string();
+        Ok((d, t))
+    })()));
+    // set_to: assignments and one optional `if c { copy }`
+    res.push(("HashPacket::set_to".to_string(), (|| {
+        let f = find_fn(&path, "HashPacket", "set_to")?;
+        let mut pk = fresh(ps);
+        let mut body = None;
+        for (i, st) in f.block.stmts.iter().enumerate() {
+            if let Stmt::Expr(Expr::If(ife), _) = st {
+                if ife.else_branch.is_some() || body.is_some() {
+                    return Err("if form".into());
+                }
+                let c = pk.cond(&ife.cond)?;
+                let mut a = Pk { buf: pk.buf.clone(), idx: pk.idx.clone(), views: pk.views.clone(), lists: pk.lists.clone(), packet: ps };
+                a.block(&ife.then_branch.stmts)?;
+                if a.idx != pk.idx {
+                    return Err("index changed in the branch".into());
+                }
+                body = Some(format!("  if {c} then ⟨{}, {}⟩ else ⟨{}, {}⟩\n", a.buf, a.idx, pk.buf, pk.idx));
+                if i + 1 != f.block.stmts.len() {
+                    return Err("statements after the if".into());
+                }
+            } else {
+                pk.block(std::slice::from_ref(st))?;
+            }
+        }
+        let body = body.unwrap_or_else(|| format!("  ⟨{}, {}⟩\n", pk.buf, pk.idx));
+        let d = format!("def setTo (p : Pkt) (data : List (BitVec 8)) : Pkt :=\n{body}");
+        let t = "theorem setTo_eq (p : Pkt) (data : List (BitVec 8)) : setTo p data = Pkt.setTo p data := by\n  cases data <;> simp [setTo, Pkt.setTo]\n".to_string();
+        Ok((d, t))
+    })()));
+    // len / is_empty / inner / as_slice
+    res.push(("HashPacket::len".to_string(), (|| {
+        let f = find_fn(&path, "HashPacket", "len")?;
+        let pk = fresh(ps);
+        let [Stmt::Expr(e, None)] = f.block.stmts.as_slice() else { return Err("form".into()) };
+        Ok((format!("def len (p : Pkt) : Nat := {}\n", pk.nat(e)?), "theorem len_eq (p : Pkt) : len p = Pkt.len p := rfl\n".to_string()))
+    })()));
+    res.push(("HashPacket::is_empty".to_string(), (|| {
+        let f = find_fn(&path, "HashPacket", "is_empty")?;
+        let pk = fresh(ps);
+        let [Stmt::Expr(Expr::Binary(b), None)] = f.block.stmts.as_slice() else { return Err("form".into()) };
+        if !matches!(b.op, syn::BinOp::Eq(_)) {
+            return Err("form".into());
+        }
+        Ok((format!("def isEmpty (p : Pkt) : Bool := ({} == {})\n", pk.nat(&b.left)?, pk.nat(&b.right)?), "theorem isEmpty_eq (p : Pkt) : isEmpty p = Pkt.isEmpty p := rfl\n".to_string()))
+    })()));
+    res.push(("HashPacket::inner".to_string(), (|| {
+        let f = find_fn(&path, "HashPacket", "inner")?;
+        let [Stmt::Expr(e, None)] = f.block.stmts.as_slice() else { return Err("form".into()) };
+        if !Pk::is_self_field(e, "buf") {
+            return Err("form".into());
+        }
+        Ok(("def inner (p : Pkt) : List (BitVec 8) := p.buf\n".to_string(), "theorem inner_eq (p : Pkt) : inner p = Pkt.inner p := rfl\n".to_string()))
+    })()));
+    res.push(("HashPacket::as_slice".to_string(), (|| {
+        let f = find_fn(&path, "HashPacket", "as_slice")?;
+        let pk = fresh(ps);
+        let stmts: Vec<&Stmt> = f.block.stmts.iter().filter(|s| !matches!(s, Stmt::Macro(m) if m.mac.path.segments.last().map(|x| x.ident.to_string().starts_with("debug_assert")).unwrap_or(false))).collect();
+        let [Stmt::Expr(Expr::MethodCall(u), None)] = stmts.as_slice() else { return Err("form".into()) };
+        if u.method != "unwrap_or" || u.args.len() != 1 || !Pk::is_self_field(&u.args[0], "buf") {
+            return Err("form".into());
+        }
+        let Expr::MethodCall(g) = &*u.receiver else { return Err("form".into()) };
+        if g.method != "get" || !Pk::is_self_field(&g.receiver, "buf") || g.args.len() != 1 {
+            return Err("form".into());
+        }
+        let Expr::Range(r) = &g.args[0] else { return Err("range".into()) };
+        if r.start.is_some() || !matches!(r.limits, syn::RangeLimits::HalfOpen(_)) {
+            return Err("range".into());
+        }
+        let i = pk.nat(r.end.as_deref().ok_or("range")?)?;
+        let d = format!("def asSlice (p : Pkt) : List (BitVec 8) := if {i} ≤ p.buf.length then p.buf.take {i} else p.buf\n");
+        let t = "theorem asSlice_eq (p : Pkt) : asSlice p = Pkt.asSlice p := by\n  unfold asSlice Pkt.asSlice\n  split\n  · rfl\n  · rename_i h; exact (List.take_of_length_le (by omega)).symm\n".to_string();
+        Ok((d, t))
+    })()));
+    res
+}
+
 fn main() {
     let args: Vec<String> = std::env::args().collect();
     let src = &args[1];
@@ -370,6 +647,23 @@ fn main() {
             }
         }
     }
+    // HashPacket
+    out.push_str("namespace Packet\n\n");
+    thms.push_str("namespace Packet\n\n");
+    for (name, r) in packet_translations(src, ps) {
+        match r {
+            Ok((d, t)) => {
+                out.push_str(&d);
+                out.push('\n');
+                thms.push_str(&t);
+                thms.push('\n');
+                status.push((name, "translated".into()));
+            }
+            Err(e) => status.push((name, format!("skipped: {e}"))),
+        }
+    }
+    out.push_str("end Packet\n\n");
+    thms.push_str("end Packet\n\n");
     out.push_str("/-! ### the translated control skeletons equal the model's, for every state and every byte string -/\n\n");
     out.push_str(&thms);
     out.push_str("end HH.Gen.Skel\n");
